@@ -430,3 +430,24 @@ pub broadcast proof fn axiom_set_contains_str(m: Set<String>, k: &str)
     ensures #[trigger] vstd::std_specs::hash::set_contains_borrowed_key::<String, str>(m, k) <==> (exists|s: String| #[trigger] m.contains(s) && s@ == k@) {}
 pub open spec fn set_has_str(m: Set<String>, k: Seq<char>) -> bool { exists|s: String| #[trigger] m.contains(s) && s@ == k }
 } // verus!
+verus! {
+// ------------------------------------------------------------------ HashMap<String, V> looked up by &str (assumed std semantics)
+pub uninterp spec fn str_lookup<V>(m: Map<String, V>, k: Seq<char>) -> Option<V>;
+#[verifier::external_body]
+pub broadcast proof fn axiom_map_contains_str<V>(m: Map<String, V>, k: &str)
+    ensures #[trigger] vstd::std_specs::hash::contains_borrowed_key::<String, V, str>(m, k) <==> str_lookup(m, k@) is Some {}
+#[verifier::external_body]
+pub broadcast proof fn axiom_map_maps_str<V>(m: Map<String, V>, k: &str, v: V)
+    ensures #[trigger] vstd::std_specs::hash::maps_borrowed_key_to_value::<String, V, str>(m, k, v) <==> str_lookup(m, k@) == Some(v) {}
+} // verus!
+verus! {
+pub uninterp spec fn spec_range_is_empty<Idx>(r: Range<Idx>) -> bool;
+pub assume_specification<Idx> [std::ops::Range::<Idx>::is_empty] (_0: &std::ops::Range<Idx>) -> (r: bool)
+    where Idx: std::cmp::PartialOrd + std::cmp::PartialOrd,
+    ensures r == spec_range_is_empty(*_0),
+;
+#[verifier::external_body]
+pub broadcast proof fn axiom_range_is_empty_usize(r: Range<usize>)
+    ensures #[trigger] spec_range_is_empty(r) == !(r.start < r.end),
+{}
+} // verus!
